@@ -27,8 +27,8 @@ func init() {
     leaf-list ll { type string; } leaf e { type enumeration { enum one; enum two; } } leaf b { type boolean; }
     leaf u { type union { type int32; type string; } } leaf em { type empty; } leaf bits { type bits { bit x; bit y; } }
     leaf lr { type leafref { path "../a"; } } leaf dec { type decimal64 { fraction-digits 2; } } leaf u64 { type uint64; }
-    leaf nk { type int32 { range "1..5 | max"; } } leaf sk { type string { length "min | 4..8"; } } leaf dk { type decimal64 { fraction-digits 2; range "min | 0..1"; } } leaf uk { type uint8 { range "max"; } } }
-  list l { key k; leaf k { type string; } leaf v { type int32; } leaf-list tags { type string; } container m { leaf z { type string; } }
+    leaf nk { type int32 { range "1..5 | max"; } } leaf sk { type string { length "min | 4..8"; } } leaf dk { type decimal64 { fraction-digits 2; range "min | 0..1"; } } leaf uk { type uint8 { range "max"; } } anydata any; action cact { input { leaf i { type string; } } } notification cev { leaf x { type string; } } }
+  list l { key k; leaf k { type string; } leaf v { type int32; } leaf-list tags { type string; } anydata any; action cact { input { leaf i { type string; } } } notification cev { leaf x { type string; } } container m { leaf z { type string; } }
     list n { key "a b"; leaf a { type string; } leaf b { type int32; } leaf w { type string; } } }
   list i { key k; leaf k { type int32; } leaf v { type string; } }
   choice ch { case x { leaf x1 { type string; } } case y { container y1 { leaf q { type string; } } } }
@@ -71,7 +71,7 @@ var c13Segs = []string{"c", "d", "a", "zz", "l", "l=a", "l=zz", "l=a,b", "l=", "
 var c13QNames = []string{"depth", "content", "fields", "fc.xfields", "with-defaults", "fc.range", "fc.max-node-count", "where", "filter", "zz"}
 var c13QVals = []string{"", "1", "-1", "99999999999999999999", "a", "a/", "/", "(", ")", ";", "!", "!-", "l!1-", "l!x-y", "l!1-2", "((", "a(b", "a;b)", "c/d", "c(a;d/x)", "l/n", "zz", "%zz", "a=1", "k='a'", "k=", "='a'", "config", "trim"}
 
-var c13XTokens = []string{"a", "k", "v", "tags", "zz", "c", "d", "l", "/", ":", "=", "!=", "<", "<=", ">", ">=", "10", "-10", "1.5", "'lit'", "'", "(", ")", "[", "]", "*", ".", "..", " "}
+var c13XTokens = []string{"a", "k", "v", "tags", "any", "cact", "cev", "zz", "c", "d", "l", "/", ":", "=", "!=", "<", "<=", ">", ">=", "10", "-10", "1.5", "'lit'", "'", "(", ")", "[", "]", "*", ".", "..", " "}
 
 func c13Words(alpha []string, maxLen int, sep string) []string {
 	out := []string{""}
@@ -601,7 +601,7 @@ func (p *c13) Run(raw json.RawMessage) eng.Result {
 			// as a when expression: the module must load (any text is a legal argument) and reads must not crash
 			if !strings.ContainsAny(x, `"\`) {
 				guard("xpath/when", i, fmt.Sprintf("when %q", x), func(_ *node.Browser) error {
-					text := fmt.Sprintf(`module w { namespace "urn:w"; prefix w; revision 0; container c { leaf a { type string; } leaf k { type string; when "%s"; } container d { when "%s"; leaf v { type int32; } } list l { key k; leaf k { type string; } leaf v { type int32; } } } }`, x, x)
+					text := fmt.Sprintf(`module w { namespace "urn:w"; prefix w; revision 0; container c { leaf a { type string; } anydata any; action cact { input { leaf i { type string; } } } notification cev { leaf x { type string; } } leaf k { type string; when "%s"; } container d { when "%s"; leaf v { type int32; } } list l { key k; leaf k { type string; } leaf v { type int32; } } } }`, x, x)
 					m, err := parserLoad(text)
 					if err != nil {
 						return err
